@@ -552,6 +552,35 @@ def main():
             if a["fn"] not in covered:
                 inv_undecided.append({"unit": "inventory", "reason": "public `&mut self` method of Story without a guard contract or an exemption", "fn": a["fn"], "file": a["file"]})
         inv_info = {"pub_mut_methods": len(api), "covered_or_exempt": len([a for a in api if a["fn"] in covered])}
+    if pc.get("inventory") == "json_prints":
+        import inventory
+        prints = inventory.json_prints(REPO)
+        safe_join = set(pc.get("escaped_part_vectors", []))
+        bad = 0
+        for pr in prints:
+            # split the argument list at top-level commas
+            args, depth, cur, instr = [], 0, "", False
+            for ch in pr["args"]:
+                if ch == '"':
+                    instr = not instr
+                if not instr:
+                    if ch in "([{":
+                        depth += 1
+                    elif ch in ")]}":
+                        depth -= 1
+                    elif ch == "," and depth == 0:
+                        args.append(cur.strip()); cur = ""; continue
+                cur += ch
+            if cur.strip():
+                args.append(cur.strip())
+            for a in args:
+                a0 = a.rstrip(") ")
+                ok = a0.startswith("escape_json_string(") or a0.endswith(".len(") or a0.endswith(".len()") \
+                    or any(a0.startswith(v + ".join(") for v in safe_join)
+                if not ok:
+                    bad += 1
+                    inv_undecided.append({"unit": "inventory", "reason": "JSON-mode output interpolates a value that does not visibly pass through escape_json_string", "at": f"rinklecate/src/player.rs:{pr['line']}", "arg": a})
+        inv_info = {"json_prints": len(prints), "unclassified_arguments": bad}
     known, _fixed = load_known()
     kprop = known.get(pid, {})
     violations, known_hit, undecided = [], [], []
